@@ -2,7 +2,11 @@ package main
 
 // Concurrency properties: C12 (Solutions.tla, SolutionsImpl.tla), C13 (Cancel.tla), C14 (Isolation.tla).
 
-import "strings"
+import (
+	"path/filepath"
+	"strconv"
+	"strings"
+)
 
 func init() {
 	plans["C12"] = &plan{
@@ -51,4 +55,57 @@ func init() {
 			c.exhaustive = true
 		},
 	}
+}
+
+func init() {
+	plans["C13"] = &plan{
+		level: "model_checking",
+		rule: "(design) Cancel.tla - nested trampolines (poll the context, run one child, children may start nested trampolines that inherit the context), Cancel enabled at every instant - is model-checked " +
+			"(NoNewWorkAfterCancel, AtMostOne, liveness: cancelled ~> returned); the configuration with a non-inherited context must fail. (binding) for 19 program shapes (repeat, length/2, between/3, direct and " +
+			"mutual recursion, findall/3, \\\\+/1, catch/3, bagof/3 and nestings, answers then a loop, initialization goal, directive, consult; two finite ones) x 3 API entry points x every cancellation instant " +
+			"'k-th poll' / 'k-th child' / already cancelled, the hooks cancel the context at exactly that instant and record every poll/child event with its nesting level; TLC validates each recorded trace " +
+			"against CancelTrace.tla (the run may start at most the one child whose poll preceded the cancellation, must end with the context's error, and the interpreter must answer follow-up queries). " +
+			"A wall-clock series cancels after random delays. distinct_nontrivial = distinct (shape, instant) traces in which the cancellation hit a running program",
+		assume:  []string{"the nesting level of a hook event is the number of Promise.Force frames on the Go call stack", "a pending call that has not returned 3 s after the cancellation counts as not prompt"},
+		trusted: []string{"TLC", "Cancel.tla / CancelTrace.tla", "the hooks fire at every trampoline iteration (dropping them makes the traces empty and the check fails as vacuous)"},
+		run: func(c *checkCtx) {
+			c.mcHolds("Cancel", "Cancel_mc.cfg", tlcOpts{workers: 4})
+			c.mcMustFail("Cancel", "Cancel_neg.cfg", tlcOpts{workers: 4})
+			n := 25
+			if c.tier == "thorough" {
+				n = 160
+			}
+			gen := filepath.Join(c.work, "cancel.ndjson")
+			c.vhRun("gen", "cancel", "--n", strconv.Itoa(n), "--out", gen)
+			traces := c.recordTraces("cancel", gen, replayOpts{timeout: 20e9, opts: map[string]string{"tmp": c.work}}, func(cs map[string]J) map[string]J {
+				return map[string]J{"shape": cs["shape"], "at": cs["at"], "k": cs["k"]}
+			})
+			if len(traces) == 0 {
+				infra("no cancellation trace was recorded (hooks not firing?)")
+			}
+			withEvents := 0
+			for _, t := range traces {
+				if len(t.lines) > 4 {
+					withEvents++
+				}
+			}
+			if withEvents*2 < len(traces) {
+				infra("most cancellation traces are empty: the trampoline hooks do not fire")
+			}
+			c.validateTraces("cancel", "CancelTrace", "CancelTrace.cfg", traces, traceOpts{})
+			c.wallClockCancel()
+		},
+	}
+}
+
+// wallClockCancel: cancellation after seeded random delays (0-50 ms), i.e. also inside a running child.
+func (c *checkCtx) wallClockCancel() {
+	n := 60
+	if c.tier == "thorough" {
+		n = 600
+	}
+	gen := filepath.Join(c.work, "cancelwall.ndjson")
+	c.vhRun("gen", "cancelwall", "--seed", strconv.FormatInt(c.seed, 10), "--n", strconv.Itoa(n), "--out", gen)
+	cases, results := c.replay("cancelwall", gen, replayOpts{timeout: 30e9, opts: map[string]string{"tmp": c.work}})
+	c.judge("cancelwall", cases, results, func(cs, res map[string]J) string { in, _ := res["input"].(string); return in })
 }
